@@ -1,6 +1,7 @@
 /- Driver ops `parse` (C01, C07) and `lookuparg` (C01 stage 1) -/
 import Carapace.Spec.Pflag
 import Carapace.Model.Traverse
+import Carapace.Model.TraverseG
 import Driver.Alg
 import Carapace.Model.PflagFork
 import Carapace.Model.Flags
@@ -17,6 +18,8 @@ structure FlagS where
   deprecated : Bool
   shortDeprecated : Bool
   mutex : List Nat
+  nargs : Int := 0
+  delim : String := ""
   deriving Repr, Inhabited
 
 structure CmdS where
@@ -37,7 +40,11 @@ structure CmdS where
 def parseFlagS (j : Json) : FlagS :=
   { name := jstr (jget j "name"), short := jstr (jget j "short"), kind := jstr (jget j "kind"), persistent := jbool j "persistent",
     hidden := jbool j "hidden", deprecated := jbool j "deprecated", shortDeprecated := jbool j "shortDeprecated",
-    mutex := (jarr j "mutex").toList.map (fun x => (x.getNat?).toOption.getD 0) }
+    mutex := (jarr j "mutex").toList.map (fun x => (x.getNat?).toOption.getD 0),
+    nargs := jint j "nargs", delim := jstr (jget j "delim") }
+
+/-- does the tree use features of the pflag fork (several words per flag, custom delimiter)? -/
+def FlagS.fork (f : FlagS) : Bool := f.nargs != 0 || (f.delim != "" && f.delim != "=")
 
 def parseCmdS (j : Json) : CmdS :=
   { name := jstr (jget j "name"), aliases := (jarr j "aliases").toList.map jstr, parent := jint j "parent", hidden := jbool j "hidden",
@@ -63,6 +70,17 @@ def toTCmd (c : CmdS) : TCmd :=
   { name := c.name.toList, aliases := als, parent := par, interspersed := c.interspersed, noFlagParse := c.noFlagParse, flags := fls }
 
 def toTTree (cmds : Array CmdS) : TTree := cmds.map toTCmd
+
+def toPFlagG (f : FlagS) : Spec.PflagG.PFlagG :=
+  { toPFlag f with delim := (f.delim.toList.head?).getD '=', nargs := f.nargs }
+
+def toTCmdG (c : CmdS) : TCmdG :=
+  let par : Option Nat := if c.parent < 0 then none else some (Int.toNat c.parent)
+  let als : List Str := c.aliases.map (fun a => a.toList)
+  let fls : List (Spec.PflagG.PFlagG × Bool) := c.flags.map (fun f => (toPFlagG f, f.persistent))
+  { name := c.name.toList, aliases := als, parent := par, interspersed := c.interspersed, noFlagParse := c.noFlagParse, flags := fls }
+
+def toTTreeG (cmds : Array CmdS) : TTreeG := cmds.map toTCmdG
 
 /-- the command in which flag `name` is defined for command `c` (own, or persistent in an ancestor) -/
 partial def flagOwner (cmds : Array CmdS) (c : Nat) (name : String) (own : Bool := true) : Option Nat :=
@@ -121,7 +139,7 @@ def runParseOp (inp out : Json) : Json :=
             if kind.startsWith "flag_" then
               let name := String.ofList (kind.toList.drop 5)
               let fv := jstr (jget (jget run "flags") name)
-              (fv == m || fv == s!"[{m}]" || fv.endsWith (m ++ "]")) && flagOwner cmds rc name == some c
+              (fv == m || fv == s!"[{m}]" || fv.endsWith (m ++ "]") || fv.endsWith (m ++ "\"]")) && flagOwner cmds rc name == some c
             else if kind.startsWith "posAny" then
               rc == c && (match idxOf with | some i => (lad < 0 || (i : Int) < lad) && i ≥ (cmds[c]?.map (·.npos)).getD 0 | none => false)
             else if kind.startsWith "pos" then
@@ -280,10 +298,16 @@ def runParseOp (inp out : Json) : Json :=
       else if srt expected == srt got then none
       else some s!"{words}: series rule model offers {srt expected}, real offers {srt got}"
   -- C01: the slot the traverse model picks vs the markers the real code serves
+  let forkTree := cmds.any (fun c => c.flags.any FlagS.fork)
+  -- the general model (fork features); on trees without them the POSIX model, which the theorems are about, must agree with it
+  let slotG := traverseSlotG (toTTreeG cmds) (cmds.size + 2) 0 (words.dropLast.map String.toList) cur.toList
+  let slotP := traverseSlot (toTTree cmds) (cmds.size + 2) 0 (words.dropLast.map String.toList) cur.toList
+  let modelsDiff : Option String :=
+    if forkTree || slotG == slotP then none else some s!"{words}: general model {repr slotG}, POSIX model {repr slotP}"
   let slotDiff : Option String :=
     if panic != "" then none else
-    let tt := toTTree cmds
-    let slot := traverseSlot tt (cmds.size + 2) 0 (words.dropLast.map String.toList) cur.toList
+    if modelsDiff.isSome then modelsDiff else
+    let slot := slotG
     let realMarkers := (values.filterMap (fun v => (findMarker (jstr (jget v "value"))).map (fun (c, k) => s!"M{c}_{k}"))).eraseDups
     let flagMarker (c : Nat) (name : Str) : List String :=
       let n := String.ofList name
@@ -320,11 +344,11 @@ def runParseOp (inp out : Json) : Json :=
               -- C06: where the model says the parser's error is shown, the real answer carries a message
               ("aspects", Json.mkObj [("C01", Json.bool slotDiff.isNone), ("C07", Json.bool ruleDiff.isNone),
                                       ("C06", Json.bool (panic != "" ||
-                                        (match traverseSlot (toTTree cmds) (cmds.size + 2) 0 (words.dropLast.map String.toList) cur.toList with
+                                        (match slotG with
                                          | .message => (jarr ex "messages").size > 0
                                          | _ => true)))]),
               ("fails", Json.arr (fails.map afailJson).toArray),
-              ("feat", Json.mkObj [("slot", Json.str (match traverseSlot (toTTree cmds) (cmds.size + 2) 0 (words.dropLast.map String.toList) cur.toList with
+              ("feat", Json.mkObj [("fork", Json.bool forkTree), ("slot", Json.str (match slotG with
                                       | .message => "message" | .dash .. => "dash" | .flagValue .. => "flagValue" | .flagValueAttached .. => "flagValueAttached"
                                       | .boolValues .. => "boolValues" | .flagNames .. => "flagNames" | .positional .. => "positional" | .notFollowed => "notFollowed")),
                                    ("ncmds", Json.num cmds.size), ("nwords", Json.num words.length), ("ncands", Json.num values.length),
@@ -335,20 +359,30 @@ def runParseOp (inp out : Json) : Json :=
 def runLookupOp (inp out : Json) : Json :=
   let flagsS := (jarr inp "flags").toList.map parseFlagS
   -- pflag's VisitAll is sorted by name; ShorthandLookup is a map: first match in any order is the same flag when shorthands are unique
-  let fs : FlagSet := (sortBy (fun (a b : FlagS) => Str.lt a.name.toList b.name.toList) flagsS).map toFlagDef
+  let sorted := sortBy (fun (a b : FlagS) => Str.lt a.name.toList b.name.toList) flagsS
+  let fs : FlagSet := sorted.map toFlagDef
+  let fsG : FlagSetG := sorted.map (fun f => (toPFlagG f).toDefG)
+  let forky := flagsS.any FlagS.fork
   -- the help flag is not defined yet when LookupArg runs
   let arg := jS inp "arg"
   let model := lookupArg fs arg
+  let modelG := lookupArgG fsG arg
   let realFound := jbool out "found"
-  let same :=
-    match model with
+  -- the general model against the real functions; without fork features the POSIX model (the theorems' one) must agree with it
+  let modelsAgree := forky || (match model, modelG with
+    | none, none => true
+    | some a, some b => a.flag == b.flag.toFlagDef && a.prefix_ == b.prefix_ && a.args == b.args && consumes a == consumesG b []
+    | _, _ => false)
+  let same := modelsAgree &&
+    match modelG with
     | none => !realFound
     | some fd => realFound && jS out "name" == fd.flag.name && jS out "prefix" == fd.prefix_ && jstrs out "args" == fd.args &&
-                 jbool out "pending" == consumes fd
+                 jbool out "pending" == consumesG fd []
   -- oracle (stage 1 on the real code): carapace waits for a value of flag f iff the parser gave NEXT to f
   let run := jget out "run"
   let err := jstr (jget run "err")
-  let pendingReal := realFound && jbool out "pending"
+  -- traverse drops a flag whose argument is attached: only a flag found without arguments can wait for the next word
+  let pendingReal := realFound && jbool out "pending" && (jstrs out "args").isEmpty
   let took := (jget run "flags")
   let fails : List AFail :=
     if err != "" || !jbool run "ran" then [] else
@@ -361,7 +395,7 @@ def runLookupOp (inp out : Json) : Json :=
       [{ prop := "C01", code := "parser_consumed_but_lookup_not_pending", detail := s!"{String.ofList arg}: the program gave NEXT to a flag ({(jget run "flags").compress}); carapace: found={realFound} pending=false" }]
     else []
   Json.mkObj [("same", Json.bool same),
-              ("diff", Json.str (if same then "" else s!"arg {String.ofList arg}: model {repr model} real found={realFound} name={jstr (jget out "name")} prefix={jstr (jget out "prefix")} args={(jget out "args").compress} pending={jbool out "pending"}")),
+              ("diff", Json.str (if same then "" else s!"arg {String.ofList arg}: model {repr modelG} (POSIX model {repr model}) real found={realFound} name={jstr (jget out "name")} prefix={jstr (jget out "prefix")} args={(jget out "args").compress} pending={jbool out "pending"}")),
               ("fails", Json.arr (fails.map afailJson).toArray),
               ("feat", Json.mkObj [("found", Json.bool realFound), ("pending", Json.bool pendingReal), ("accepted", Json.bool (err == ""))])]
 
